@@ -829,7 +829,12 @@ impl EncodingVersion for EncodingVersion1 {
         Self::align(serializer, 4);
         let member_descriptor = v.get_descriptor(member_id)?;
         let m_flag = member_descriptor.is_must_understand as u16;
-        let pid = member_id as u16 + (m_flag << 14);
+        // the short parameter header holds a 14-bit id (the long header, rule (25), is not
+        // implemented): report larger ids instead of overflowing / aliasing
+        if member_id >= 0x4000 {
+            return Err(XTypesError::InvalidId(member_id));
+        }
+        let pid = member_id as u16 | (m_flag << 14);
         serializer.serialize_primitive_type(&pid);
         let ssize = Ssize::new(serializer);
         let outer_position = ssize.serializer.writer.position;
